@@ -29,6 +29,7 @@ type HarnessCfg struct {
 	TimeoutS   int
 	MapOrder   []string
 	PoolReuse  bool
+	PoolLIFO   bool
 	NoReplay   bool
 	ReplayRuns int
 	Tiers      string // "", "quick", "thorough": restrict harness to a tier
@@ -63,7 +64,11 @@ func parseHarnessCfgs(src string, tier string, into map[string]*HarnessCfg) {
 			case "maporder":
 				c.MapOrder = strings.Split(v, ",")
 			case "poolreuse":
-				c.PoolReuse = true
+				if v == "lifo" {
+					c.PoolLIFO = true
+				} else {
+					c.PoolReuse = true
+				}
 			case "noreplay":
 				c.NoReplay = true
 			case "replayruns":
@@ -223,6 +228,7 @@ func explore(P *sym.Program, name string, base sym.Config, hc *HarnessCfg, regio
 	}
 	cfg.MapOrderFuncs = hc.MapOrder
 	cfg.PoolReuse = hc.PoolReuse
+	cfg.PoolLIFO = hc.PoolLIFO
 	maxPaths := hc.MaxPaths
 	if maxPaths == 0 {
 		maxPaths = 200000
